@@ -110,6 +110,13 @@ CHECKS['C04'] = ('simnet', 'exploration',
     'the number of sets queued towards a merely slow consumer is <= 9 at every process() call for N and 4N frames.',
     SIMNET_NOTE + ' The numeric bound is checked on generated schedules, not proved.', '5 C04')
 
+CHECKS['C06'] = ('simnet', 'fault_enumeration',
+    'fault injection on a simulated network: kill/restart/stall injected at scheduling steps of a reference run (sampled by Hypothesis and swept at a fixed stride); bounded-liveness probe in virtual time + ordering invariant',
+    'Every filter of chain / tee / tee-rejoin / balanced topologies is hard-killed at chosen scheduling steps of a fault-free reference run and restarted after 0 / 0.3 / 2 / 7 s or never (non-required consumers), '
+    'or blocks silently for 6-8 s; after the last fault event every live synchronized sink must receive a frame within 7 virtual seconds and keep receiving, a publisher must not publish while its required '
+    'output is missing, per-sink ordering must still hold and no filter may end with an exception.',
+    SIMNET_NOTE + ' Liveness is bounded liveness on sampled schedules ("never deadlocks under any fair schedule" is not established).', '5 C06')
+
 PENDING = {}
 
 
